@@ -633,34 +633,34 @@ theorem identSuffix_identSuffix (p q : Char → Bool) (l : Str) :
       simp only [identSuffix, hq, this]
       exact ih
 
-/-- the characters `fromPrefix` stops at -/
-def fromStop (c : Char) : Bool := c == Generated.fromSep1 || c == Generated.fromSep2
+/-- the characters `fromPrefixLegacy` stops at -/
+def fromStop (c : Char) : Bool := c == legacyFromSep1 || c == Generated.fromSep2
 
-theorem fromPrefix_eq_identSuffix (line : Str) :
-    fromPrefix line = identSuffix (fun c => !fromStop c) line := by
-  simp only [fromPrefix, rpartition_tail, afterLast_eq_identSuffix, identSuffix_identSuffix]
+theorem fromPrefixLegacy_eq_identSuffix (line : Str) :
+    fromPrefixLegacy line = identSuffix (fun c => !fromStop c) line := by
+  simp only [fromPrefixLegacy, rpartition_tail, afterLast_eq_identSuffix, identSuffix_identSuffix]
   congr 1
   funext c
   simp [fromStop, bne]
 
-theorem fromPrefix_eq_split (line : Str) :
-    fromPrefix line =
-      (splitBy (fun c => c == Generated.fromSep1 || c == Generated.fromSep2) line).getLastD [] := by
-  rw [fromPrefix_eq_identSuffix, ← splitBy_getLastD]
+theorem fromPrefixLegacy_eq_split (line : Str) :
+    fromPrefixLegacy line =
+      (splitBy (fun c => c == legacyFromSep1 || c == Generated.fromSep2) line).getLastD [] := by
+  rw [fromPrefixLegacy_eq_identSuffix, ← splitBy_getLastD]
   congr 2
   funext c
   simp [fromStop]
 
-theorem fromPrefix_iff (isWord : Char → Bool) (line : Str)
-    (hsp : isWord Generated.fromSep1 = false) (hdot : isWord Generated.fromSep2 = false) :
-    fromPrefix line = identSuffix isWord line ↔ (fromPrefix line).all isWord = true := by
+theorem fromPrefixLegacy_iff (isWord : Char → Bool) (line : Str)
+    (hsp : isWord legacyFromSep1 = false) (hdot : isWord Generated.fromSep2 = false) :
+    fromPrefixLegacy line = identSuffix isWord line ↔ (fromPrefixLegacy line).all isWord = true := by
   constructor
   · intro h; rw [h]; exact identSuffix_all _ _
   · intro h
     refine identSuffix_unique isWord line _ ?_ h ?_
-    · rw [fromPrefix_eq_identSuffix]; exact identSuffix_suffix _ _
+    · rw [fromPrefixLegacy_eq_identSuffix]; exact identSuffix_suffix _ _
     · intro s hs ha
-      rw [fromPrefix_eq_identSuffix]
+      rw [fromPrefixLegacy_eq_identSuffix]
       apply identSuffix_longest _ _ _ hs
       rw [List.all_eq_true] at ha ⊢
       intro x hx
@@ -670,10 +670,144 @@ theorem fromPrefix_iff (isWord : Char → Bool) (line : Str)
       · rintro rfl; rw [hsp] at hw; cases hw
       · rintro rfl; rw [hdot] at hw; cases hw
 
+/-! ### the `from` branch (ab8463e): `re.match(r'\s*from\s+([\w.]*)$', line)` -/
+
+theorem mem_takeWhile_p (p : Char → Bool) (l : List Char) (x : Char) (h : x ∈ l.takeWhile p) : p x = true := by
+  induction l with
+  | nil => simp at h
+  | cons a t ih =>
+    simp only [List.takeWhile_cons] at h
+    split at h
+    · rename_i ha
+      simp only [List.mem_cons] at h
+      rcases h with rfl | h
+      · exact ha
+      · exact ih h
+    · simp at h
+theorem len_tw (p : Char → Bool) (l : List Char) : l.length = (l.takeWhile p).length + (l.dropWhile p).length := by
+  have := congrArg List.length (List.takeWhile_append_dropWhile (p := p) (l := l))
+  rw [List.length_append] at this
+  omega
+
+/-- a word-character suffix cannot reach across a non-word character -/
+theorem wordSuffix_bound (isWord : Char → Bool) (line pre t s : Str) (c : Char)
+    (hl : line = pre ++ c :: t) (hc : isWord c = false) (hs : s <:+ line) (ha : s.all isWord = true) :
+    s.length ≤ t.length := by
+  by_cases h : s.length ≤ t.length
+  · exact h
+  · exfalso
+    have hct : (c :: t) <:+ line := ⟨pre, hl.symm⟩
+    have : (c :: t) <:+ s := List.suffix_of_suffix_length_le hct hs (by simp only [List.length_cons]; omega)
+    obtain ⟨u, hu⟩ := this
+    have hmem : c ∈ s := by rw [← hu]; simp
+    rw [List.all_eq_true] at ha
+    rw [ha c hmem] at hc
+    cases hc
+
+/-- what a match of the from-branch pattern says about the line: the module text `m` ends the line, consists of word
+    characters and dots, and is preceded by a whitespace character -/
+theorem fromMatch_shape (isWord : Char → Bool) (line m : Str) (h : fromMatch isWord line = some m) :
+    (∃ pre w, line = pre ++ w :: m ∧ pyIsSpace w = true) ∧ m.all (fun c => isWord c || c == '.') = true := by
+  unfold fromMatch Generated.fromModule at h
+  simp only at h
+  split at h
+  · rename_i hfrom
+    split at h
+    · rename_i hm
+      simp only [Option.some.injEq] at h
+      simp only [Bool.and_eq_true, decide_eq_true_eq] at hm
+      subst h
+      refine ⟨?_, hm.2⟩
+      -- line = takeWhile ++ dropWhile; dropWhile = from ++ r2; r2 = takeWhile ++ m
+      have h1 : line = line.takeWhile pyIsSpace ++ line.dropWhile pyIsSpace := (List.takeWhile_append_dropWhile).symm
+      have h2 : line.dropWhile pyIsSpace = ['f', 'r', 'o', 'm'] ++ (line.dropWhile pyIsSpace).drop 4 := by
+        rw [List.isPrefixOf_iff_prefix] at hfrom
+        obtain ⟨u, hu⟩ := hfrom
+        rw [← hu]; simp
+      generalize hr2 : (line.dropWhile pyIsSpace).drop 4 = r2 at *
+      have h3 : r2 = r2.takeWhile pyIsSpace ++ r2.dropWhile pyIsSpace := (List.takeWhile_append_dropWhile).symm
+      have hne : r2.takeWhile pyIsSpace ≠ [] := by
+        intro hnil
+        have := len_tw pyIsSpace r2
+        rw [hnil] at this
+        simp only [List.length_nil, Nat.zero_add] at this
+        omega
+      have hlast := List.dropLast_concat_getLast hne
+      have hw : pyIsSpace ((r2.takeWhile pyIsSpace).getLast hne) = true := by
+        have := List.getLast_mem hne
+        exact mem_takeWhile_p pyIsSpace r2 _ this
+      refine ⟨line.takeWhile pyIsSpace ++ ['f', 'r', 'o', 'm'] ++ (r2.takeWhile pyIsSpace).dropLast,
+        (r2.takeWhile pyIsSpace).getLast hne, ?_, hw⟩
+      conv => lhs; rw [h1, h2, h3, ← hlast]
+      simp [List.append_assoc]
+    · cases h
+  · cases h
+
+/-- in the `from` branch the returned prefix IS the longest run of word characters left of the cursor -/
+theorem fromPrefixOf_eq_identSuffix (isWord : Char → Bool) (line m : Str)
+    (hsp : ∀ c, pyIsSpace c = true → isWord c = false) (hdot : isWord Generated.fromSep2 = false)
+    (h : fromMatch isWord line = some m) : fromPrefixOf m = identSuffix isWord line := by
+  obtain ⟨⟨pre, w, hline, hw⟩, hall⟩ := fromMatch_shape isWord line m h
+  have hwn : isWord w = false := hsp w hw
+  unfold fromPrefixOf
+  rw [rpartition_tail, afterLast_eq_identSuffix]
+  have hsufm : identSuffix (· != Generated.fromSep2) m <:+ m := identSuffix_suffix _ _
+  have hm_line : m <:+ line := ⟨pre ++ [w], by rw [hline]; simp⟩
+  refine identSuffix_unique isWord line _ (hsufm.trans hm_line) ?_ ?_
+  · -- all word characters: in `m` (word or dot) and not the dot
+    have hnd := identSuffix_all (· != Generated.fromSep2) m
+    rw [List.all_eq_true] at hnd hall ⊢
+    intro x hx
+    have h1 := hall x (hsufm.subset hx)
+    have h2 := hnd x hx
+    simp only [Bool.or_eq_true, beq_iff_eq] at h1
+    simp only [bne_iff_ne, ne_eq] at h2
+    rcases h1 with h1 | h1
+    · exact h1
+    · exact absurd h1 h2
+  · intro s hs ha
+    rcases identSuffix_maximal (· != Generated.fromSep2) m with hm | ⟨pre', c, hm, hc⟩
+    · -- no dot in m: the character before is the whitespace
+      rw [hm]
+      exact wordSuffix_bound isWord line pre m s w hline hwn hs ha
+    · have hcd : c = Generated.fromSep2 := by
+        simp only [bne_eq_false_iff_eq] at hc; exact hc
+      have hl2 : line = (pre ++ w :: pre') ++ c :: identSuffix (· != Generated.fromSep2) m := by
+        rw [hline]; conv => lhs; rw [hm]
+        simp
+      exact wordSuffix_bound isWord line _ _ s c hl2 (by rw [hcd]; exact hdot) hs ha
+
+/-- so `assist`'s prefix is `identSuffix` on every line -/
+theorem assistPrefix_eq (isWord : Char → Bool) (line : Str)
+    (hsp : ∀ c, pyIsSpace c = true → isWord c = false) (hdot : isWord Generated.fromSep2 = false) :
+    assistPrefix isWord line = identSuffix isWord line := by
+  unfold assistPrefix
+  split
+  · rename_i m hm
+    exact fromPrefixOf_eq_identSuffix isWord line m hsp hdot hm
+  · exact prefixOf_eq isWord line
+
 /-! ### a concrete word class for examples and witnesses -/
 
 /-- ASCII `\w`: letters, digits, underscore -/
 def asciiWord (c : Char) : Bool := c.isAlphanum || c == '_'
+
+/-- the ASCII word class contains no whitespace character -/
+theorem asciiWord_not_space (c : Char) (h : pyIsSpace c = true) : asciiWord c = false := by
+  unfold pyIsSpace at h
+  unfold asciiWord Char.isAlphanum Char.isAlpha Char.isUpper Char.isLower Char.isDigit
+  simp only [Char.toNat] at h
+  have hu : c = '_' ↔ c.val.toNat = 95 := by
+    constructor
+    · rintro rfl; rfl
+    · intro h; apply Char.ext; apply UInt32.toNat_inj.mp; simpa using h
+  simp only [Bool.or_eq_true, Bool.and_eq_true, decide_eq_true_eq, beq_iff_eq] at h
+  simp only [Bool.or_eq_false_iff, Bool.and_eq_false_iff, decide_eq_false_iff_not, beq_eq_false_iff_ne, ne_eq, hu,
+    UInt32.le_iff_toNat_le, ge_iff_le]
+  simp
+  have hh : c.toNat = c.val.toNat := rfl
+  omega
+
 
 /-- a sufficient condition for `noEarlyMark`: no underscore left of the cursor -/
 theorem noEarlyMark_of_no_underscore (a : Str) (h : '_' ∉ a) : noEarlyMark a = true := by
